@@ -84,6 +84,9 @@ fn main() {
                 "replay-reject" => cmd_reject::replay_one(&v),
                 "replay-order" => cmd_order::replay_one(&v),
                 "replay-sub" => cmd_sub::replay_one(&v),
+                "replay-compare" => cmd_compare::replay_one(&v),
+                "replay-linkage" => cmd_linkage::replay_one(&v),
+                "replay-setmeta" => cmd_setmeta::replay_one(&v),
                 "replay-setmachine" => cmd_setmachine::replay_one(&v),
                 "replay-export" => cmd_export::replay_one(&v),
                 "replay-ontmachine" => cmd_ontmachine::replay_one(&v),
